@@ -146,6 +146,10 @@ func replayOnRealCode(cfg *Config, ld *Loaded, replayPath string) bool {
 		noteReplay(replayPath, "no replay template for "+unitKey)
 		return false
 	}
+	if len(probes) == 0 {
+		// witness template: fixed input of the recorded input class, no solver model needed
+		return runReplayTest(cfg, ld, o, replayPath, tmpl, map[string]string{})
+	}
 	eng := o.Unit.eng
 	// evaluate the probes in the entry state
 	st := &State{u: o.Unit, cellVal: map[*Cell]Value{}, heap: map[string]Term{}, pcSet: map[string]bool{}, written: map[string]bool{}, fresh: map[string]bool{}}
